@@ -30,6 +30,14 @@ def run(r):
     r.replay(drv, s.behaviours, 'Signals', 'simulate')
     # the same histories on a nanosecond-scale (dyadic) time unit: grid comparisons must not depend on the scale
     r.replay(None, s.behaviours, 'Signals', 'simulate (time unit 2^-30 s)', parallel=16, factory=SignalsDriver, factory_kw=dict(scale=2.0 ** -30))
+    # 3b. focused on binary operations (different grids of equal length, all class pairs), on both time scales
+    sa = tlc.simulate('SignalsMC', 'Signals_addfocus.cfg', 'C04/simadd', num=3000 if thorough else 500, depth=10, seed=r.seed + 4)
+    if sa.violated:
+        raise tlc.TLCError('simulation violates %s' % sa.violated)
+    r.transitions += sa.generated
+    r.replay(drv, sa.behaviours, 'Signals', 'simulate (addition focus)')
+    r.replay(None, sa.behaviours, 'Signals', 'simulate (addition focus, time unit 2^-30 s)', parallel=16, factory=SignalsDriver,
+             factory_kw=dict(scale=2.0 ** -30))
     # 4. regression witness of D1 (as-is model: with_times keeps the caller's array): TLC must find the
     #    NoAlias counterexample, and the real code must not exhibit it
     w = r.model_check('SignalsMC', 'Signals_asis.cfg', expect_violation='NoAlias')
